@@ -248,7 +248,7 @@ func runC20Scenario(c *Ctx, bin string, sc c20Scenario, idx int) (res c20Result)
 		go func(ci int) {
 			defer cwg.Done()
 			rng := rand.New(rand.NewSource(c.Seed*7919 + int64(idx)*131 + int64(ci)))
-			client := &http.Client{Timeout: 90 * time.Second, Transport: &http.Transport{DisableKeepAlives: true}}
+			client := &http.Client{Timeout: 40 * time.Second, Transport: &http.Transport{DisableKeepAlives: true}}
 			for k := 0; k < sc.requests; k++ {
 				kind := "instant"
 				switch sc.mix {
